@@ -40,6 +40,59 @@ import (
 func init() {
 	common.TempSuppressOnMemStorage = true // real files (tmpfs), as the repository's persistence tests do
 	concurrency.VerifNoBackground = true   // hook H2
+	optimizer.VerifPlanChooser = planChooser // hook H3
+}
+
+// ---- hook H3: the optimizer's tie-breaks between equal-cost plans are an environment answer -----------
+
+// PlanChoice is one decision point of the optimizer: the tied cost-minimal candidates (canonical order)
+// and the one taken.
+type PlanChoice struct {
+	Site  string
+	Tied  []string
+	Taken int
+}
+
+var (
+	planPrefix []int        // choices to replay (then 0 = the canonically first candidate)
+	PlanTrace  []PlanChoice // decision points of the statement being planned
+)
+
+func planChooser(site string, tied []string) int {
+	idx := 0
+	if n := len(PlanTrace); n < len(planPrefix) {
+		idx = planPrefix[n]
+	}
+	if idx >= len(tied) {
+		idx = 0
+	}
+	PlanTrace = append(PlanTrace, PlanChoice{Site: site, Tied: tied, Taken: idx})
+	return idx
+}
+
+// SetPlanChoices fixes the optimizer's tie-breaks for the next statement(s).
+func SetPlanChoices(prefix []int) {
+	planPrefix = prefix
+	PlanTrace = nil
+}
+
+// PlanAlternatives returns the choice prefixes that deviate from the recorded trace at one point (the
+// DFS successor rule over plan choices).
+func PlanAlternatives(trace []PlanChoice, from int) [][]int {
+	var out [][]int
+	for i := from; i < len(trace); i++ {
+		for alt := 0; alt < len(trace[i].Tied); alt++ {
+			if alt == trace[i].Taken {
+				continue
+			}
+			pf := make([]int, 0, i+1)
+			for j := 0; j < i; j++ {
+				pf = append(pf, trace[j].Taken)
+			}
+			out = append(out, append(pf, alt))
+		}
+	}
+	return out
 }
 
 // openTimeout: NewSamehadaDB normally takes 0.5-3 ms.
@@ -208,6 +261,7 @@ func (d *DB) Begin() *Txn {
 // Exec runs one statement inside the transaction, exactly as ExecuteSQLRetValues does minus the
 // begin/commit. If the engine marks the transaction aborted the caller must call Abort.
 func (t *Txn) Exec(sql string) (res StmtResult) {
+	PlanTrace = nil
 	res.Fail = guard(func() {
 		qi, err := parser.ProcessSQLStr(&sql)
 		if err != nil {
@@ -246,6 +300,55 @@ func (t *Txn) runPlan(plan plans.Plan) (Rows, bool, bool) {
 		return nil, false, false
 	}
 	return convRows(samehada_util.ConvTupleListToValues(out, result)), false, true
+}
+
+// PlanVariants plans sql under every combination of the optimizer's tie-breaks (hook H3) and returns one
+// choice prefix per DISTINCT plan, with the canonical plan strings. Planning has no side effects; the
+// throw-away transaction is committed empty.
+func (d *DB) PlanVariants(sql string) (prefixes [][]int, planStrs []string, fail *Failure) {
+	seen := map[string]bool{}
+	work := [][]int{nil}
+	for len(work) > 0 && len(prefixes) < 64 {
+		pf := work[len(work)-1]
+		work = work[:len(work)-1]
+		var ps string
+		t := d.Begin()
+		f := guard(func() {
+			SetPlanChoices(pf)
+			qi, err := parser.ProcessSQLStr(&sql)
+			if err != nil {
+				return
+			}
+			qi, err = optimizer.RewriteQueryInfo(d.Cat(), qi)
+			if err != nil {
+				return
+			}
+			err, plan := planner.NewSimplePlanner(d.Cat(), d.BPM()).MakePlan(qi, t.T)
+			if err == nil && plan != nil {
+				ps = optimizer.VerifPlanString(plan)
+			}
+		})
+		trace := PlanTrace
+		SetPlanChoices(nil)
+		t.Commit()
+		if f != nil {
+			return prefixes, planStrs, f
+		}
+		if ps == "" {
+			continue
+		}
+		if !seen[ps] {
+			seen[ps] = true
+			full := make([]int, len(trace))
+			for i, c := range trace {
+				full[i] = c.Taken
+			}
+			prefixes = append(prefixes, full)
+			planStrs = append(planStrs, ps)
+		}
+		work = append(work, PlanAlternatives(trace, len(pf))...)
+	}
+	return
 }
 
 // ExecPlan runs a hand-built plan (values the SQL literal forms cannot express).
